@@ -180,6 +180,14 @@ func canonical(e *env) {
 		{"#cfg 4 100", fmt.Sprintf("cput 1 %s %s %s", b.hash, size, hexs(b.data)), fmt.Sprintf("cget 1 %s %s", b.hash, size)},
 		{"#cfg 16 100", "store " + sha([]byte{7}) + " 1 07", "cget 1 " + sha([]byte{7}) + " 1"},
 	}
+	// FindMissing through client and server for sets mixing digest functions and instance names
+	m5, s1 := hashAs("md5", b.data), hashAs("sha1", b.data)
+	cases = append(cases,
+		[]string{"#cfg 16 100", fmt.Sprintf("cfm ; sha256.- %s %s ; md5.- %s %s", b.hash, size, m5, size)},
+		[]string{"#cfg 16 100", storeLine(b), fmt.Sprintf("cfm ; sha256.a %s %s ; md5.a %s %s ; sha1.a %s %s ; sha256.b %s %s ; md5.- %s %s",
+			b.hash, size, m5, size, s1, size, b.hash, size, m5, size)},
+		[]string{"#cfg 16 100", fmt.Sprintf("store %s %s %s", m5, size, hexs(b.data)),
+			fmt.Sprintf("cfm ; md5.a_b %s %s ; sha256.a_b %s %s ; md5.c %s %s", m5, size, b.hash, size, m5, size)})
 	// a streaming backend whose medium fails after k bytes, for every k; and stored
 	// objects that do not match their digest (too short, too long, same length)
 	obj := mkBlob([]byte("0123456789"))
